@@ -269,7 +269,6 @@ end SF
 /-! ## Signed operations on finite operands -/
 
 namespace SF
-open Prism
 
 /-- a finite, well-formed bit pattern (not NaN, not ±∞, no bits above the sign bit) -/
 def Fin (f : Fmt) (b : Nat) : Prop := absBits f b < f.infBits ∧ b < 2 * f.signBit
